@@ -134,6 +134,9 @@ func (obj *SparseIntVector) SET(x *SparseIntVector) {
   }
 }
 func (obj *SparseIntVector) SLICE(i, j int) *SparseIntVector {
+  if i < 0 || i > j || j > obj.n {
+    panic("slice bounds out of range")
+  }
   r := nilSparseIntVector(j-i)
   for it := obj.indexIteratorFrom(i); it.Ok(); it.Next() {
     if it.Get() >= j {
@@ -221,6 +224,9 @@ func (obj *SparseIntVector) Slice(i, j int) Vector {
   return obj.SLICE(i, j)
 }
 func (obj *SparseIntVector) Swap(i, j int) {
+  if i < 0 || i >= obj.n || j < 0 || j >= obj.n {
+    panic("index out of bounds")
+  }
   vi, oki := obj.values[i]
   vj, okj := obj.values[j]
   switch {
